@@ -115,6 +115,17 @@ func (m *metadata) setMultipart(version uint64, meta map[uint8]*multipartMeta) {
 	}
 }
 
+// releaseRootSeqNos releases all root sequence numbers reserved for the given non-finalized
+// version (used when a multipart restore into that version is aborted so that a restarted
+// restore starts from sequence number zero again).
+func (m *metadata) releaseRootSeqNos(version uint64) {
+	m.Lock()
+	defer m.Unlock()
+
+	delete(m.value.NextPendingRootSeq, version)
+	delete(m.value.PendingRootSeqs, version)
+}
+
 func (m *metadata) reserveRootSeqNo(version uint64, rootType uint8) (uint16, error) {
 	m.Lock()
 	defer m.Unlock()
